@@ -16,6 +16,7 @@ py_float_of_str = z3.Function('py_float_of_str', T.S, T.R)
 py_float_ok = z3.Function('py_float_ok', T.S, T.B)
 str_of_dt = z3.Function('str_of_dt', V, T.S)
 list_eq = z3.Function('list_eq', V, V, T.B)
+obj_dict = z3.Function('obj_dict', V, V)      # A-STATIC: attribute table of an instance / of its class
 
 DIGITS = z3.Plus(z3.Range('0', '9'))
 WS = z3.Star(z3.Union(z3.Re(' '), z3.Re('\t'), z3.Re('\n')))
@@ -218,6 +219,57 @@ class ExprMixin:
             s3, D = self.new_dict(st2, list(zip(ks, vs)))
             return [(s3, D)]
         return self.seq(self.ev_list(list(n.keys) + list(n.values), st), k)
+
+    def e_DictComp(self, n, st):
+        """{K(x): V(x) for x in xs} over a list of unknown length (no filter): key and value are evaluated once on the
+        generic element; they must be single-path and exception-free.  Later elements win; the witness of a key is
+        the Skolem function dc_last(D, key) = index of its last occurrence."""
+        if len(n.generators) != 1 or n.generators[0].ifs or n.generators[0].is_async:
+            raise NotFormed('dict comprehension with a filter / several generators')
+        g = n.generators[0]
+
+        def k(st2, src):
+            src = self.need_term(src, 'as dict-comprehension iterable')
+            if feasible(st2, z3.Not(z3.Or(is_('List', src), is_('Tuple', src)))):
+                raise NotFormed('dict comprehension over a value that may not be a list')
+            kq = fresh('kq', T.I)
+            saved = {nm: st2.env.get(nm) for nm in self._target_names(g.target)}
+            s = st2.add(0 <= kq, kq < ln(src))
+            s = self.bind_target(s, g.target, at(src, kq))
+            outs = [o for o in self.ev_list([n.key, n.value], s) if not (isinstance(o, Flow) and not feasible(o.st))]
+            if len(outs) != 1 or isinstance(outs[0], Flow):
+                raise NotFormed('dict comprehension whose key / value forks or may raise')
+            s_after, (kt, vt) = outs[0]
+            kt, vt = self.need_term(kt), self.need_term(vt)
+            if len(s_after.axioms) > len(s.axioms):
+                raise NotFormed('dict comprehension key / value with quantified side conditions')
+            extra = list(s_after.pc[len(s.pc):])
+            if extra:
+                # side conditions of the single surviving path must be entailed (the other paths were infeasible)
+                chk = z3.Solver()
+                chk.set('timeout', 5000)
+                chk.add(*s.all_facts())
+                chk.add(z3.Not(z3.And(extra)))
+                if chk.check() != z3.unsat:
+                    raise NotFormed('dict comprehension key / value with side conditions that are not entailed')
+            D = V.Dict(fresh('did', T.I))
+            last = z3.Function(f'dc_last!{kq.get_id()}', V, T.I)
+            j, key = fresh('j', T.I), fresh('key')
+            Kj, Vj = z3.substitute(kt, (kq, j)), z3.substitute(vt, (kq, j))
+            li = last(key)
+            Kl, Vl = z3.substitute(kt, (kq, li)), z3.substitute(vt, (kq, li))
+            j2 = fresh('j', T.I)
+            K2 = z3.substitute(kt, (kq, j2))
+            facts = [
+                z3.ForAll([j], z3.Implies(z3.And(0 <= j, j < ln(src)), T.dhas(D, Kj)), patterns=[at(src, j)]),
+                z3.ForAll([key], z3.Implies(T.dhas(D, key), z3.And(0 <= li, li < ln(src), Kl == key, T.dget(D, key) == Vl)),
+                          patterns=[T.dhas(D, key)]),
+                z3.ForAll([key, j2], z3.Implies(z3.And(T.dhas(D, key), li < j2, j2 < ln(src)), K2 != key),
+                          patterns=[z3.MultiPattern(T.dhas(D, key), at(src, j2))]),
+                T.dcount(D) >= 0, T.dcount(D) <= ln(src)]
+            st3 = self._restore(st2, saved)
+            return [(st3.add(*facts), D)]
+        return self.seq(self.ev(g.iter, st), k)
 
     def e_JoinedStr(self, n, st):
         parts = []
@@ -777,7 +829,15 @@ class ExprMixin:
             return self.cases(st, [(is_('TimeDelta', o), lambda s: [(s, V.Int(V.tdays(o)))]),
                                    (z3.Not(is_('TimeDelta', o)), lambda s: self.exc(s, 'AttributeError'))])
         if attr == '__class__':
+            if is_term(o) and self.class_name and self.class_name in ('ExcelInPython',):
+                # A-STATIC: the class of the runtime instance is the generated class; its attribute table is the
+                # uninterpreted dict obj_dict(Cls) (methods as callables)
+                return self.cases(st, [(is_('Obj', o), lambda s: [(s, V.Cls(z3.IntVal(900)))]),
+                                       (z3.Not(is_('Obj', o)), lambda s: [(s, V.Cls(T.tag_id(o)))])])
             return [(st, V.Cls(T.tag_id(o)))]
+        if attr == '__dict__':
+            d = obj_dict(o)
+            return [(st.add(is_('Dict', d), T.dcount(d) >= 0), d)]
         if attr in st.heap:
             return self.cases(st, [(is_('Obj', o), lambda s: [(s, z3.Select(s.heap[attr], V.oid(o)))]),
                                    (z3.Not(is_('Obj', o)), lambda s: self.exc(s, 'AttributeError'))])
